@@ -108,7 +108,7 @@ func corrVersions(ctx *Ctx, e *Eco, cands []string, p *Pool, m [][]int) {
 	var reqs []string
 	var idx []int
 	for i, s := range cands {
-		if !isASCII(s) {
+		if !vInDomain(e.Name, s) {
 			continue
 		}
 		reqs = append(reqs, "VS "+e.Name+" "+hx(s))
